@@ -8,6 +8,7 @@ mod plans;
 mod report;
 mod props;
 mod aio;
+mod t01;
 mod t02;
 
 fn main() {
@@ -15,6 +16,7 @@ fn main() {
     std::panic::set_hook(Box::new(|_| {}));
     let quick = !args.iter().any(|a| a == "thorough");
     let st = match args.get(1).map(|s| s.as_str()) {
+        Some("C01") => t01::run(quick),
         Some("C02") => t02::run(quick),
         _ => {
             eprintln!("hvc-tokio: no tokio twin for {:?}", args.get(1));
